@@ -126,6 +126,27 @@ impl<C: Config, Q: Query> Snapshot<C, Q> {
             let old_kind = self.query_kind().await;
             let existing_forward_edges = self.forward_edge_order().await;
 
+            // A run that ends inside a strongly connected component, or that
+            // replaces one that did, is not the consequence of dirtiness
+            // that has travelled up through this query: it is re-executed
+            // because it has nothing to be verified against, and the change
+            // that dissolved or created the cycle may have stopped at a
+            // firewall below. If its value changes, the queries above must
+            // learn about it the way they do from a firewall.
+            let is_in_scc = lock_guard.query_computing().is_in_scc();
+            let old_node_info = if old_kind.is_some()
+                && execute_query_for == ExecuteQueryFor::RecomputeQuery
+            {
+                self.node_info().await
+            } else {
+                None
+            };
+            let scc_related = is_in_scc
+                || old_node_info.as_ref().is_some_and(|x| {
+                    x.transitive_firewall_callees()
+                        .contains(self.query_id())
+                });
+
             // if the old node info is a firewall or projection node, we compare
             // the old and new value fingerprints to determine if we need to
             // do dirty propagation.
@@ -134,12 +155,13 @@ impl<C: Config, Q: Query> Snapshot<C, Q> {
                 query_value_fingerprint,
                 need_backward_projection_propagation,
             ) = if let Some(old_kind) = old_kind
-                && (old_kind.is_firewall() || old_kind.is_projection())
+                && (old_kind.is_firewall()
+                    || old_kind.is_projection()
+                    || scc_related)
                 && execute_query_for == ExecuteQueryFor::RecomputeQuery
             {
-                let old_node_info = self.node_info().await.expect(
-                    "old node info should exist for recomputed firewall or \
-                     projection",
+                let old_node_info = old_node_info.expect(
+                    "old node info should exist for a recomputed query",
                 );
 
                 let fingerprint = self.engine().hash(&value);
@@ -163,6 +185,7 @@ impl<C: Config, Q: Query> Snapshot<C, Q> {
                         let new_tfc =
                             self.engine().create_tfc_from_scc_hash_set(
                                 lock_guard.query_computing().tfc(),
+                                is_in_scc.then_some(*self.query_id()),
                             );
 
                         self.engine().hash(&new_tfc)
